@@ -2,12 +2,14 @@ module verifharness
 
 go 1.20
 
-require github.com/ChrisTrenkamp/xsel v0.0.0
+require (
+	github.com/ChrisTrenkamp/xsel v0.0.0
+	golang.org/x/net v0.19.0
+)
 
 require (
 	github.com/goccmack/goutil v1.2.3 // indirect
 	github.com/pkg/errors v0.9.1 // indirect
-	golang.org/x/net v0.19.0 // indirect
 	golang.org/x/text v0.14.0 // indirect
 )
 
